@@ -25,6 +25,11 @@ def expr_place(body, place, depth=0, stop=()):
         pv = _promoted_value(body, l)
         if pv is not None and len(proj) == 1:
             return pv
+        tg = mir.place_targets(body, place)
+        if len(tg) == 1:
+            (r, pth), = tg
+            if r[0] == "local" and not pth and r[1] != l and depth < MAXD:
+                return expr_local(body, r[1], depth + 1, stop)
         return ("load", targets_str(body, place), place["ty"])
     # projections of a local value (tuple/struct fields, enum payloads)
     e = expr_local(body, l, depth + 1, stop)
@@ -118,6 +123,11 @@ def expr_rv(body, rv, depth=0, stop=()):
             pv = _promoted_value(body, pl["l"])
             if pv is not None:
                 return ("ref", pv)
+        tg = mir.place_targets(body, pl)
+        if len(tg) == 1:
+            (r, pth), = tg
+            if r[0] == "local" and not pth and r[1] != pl["l"] and depth < MAXD:
+                return ("ref", expr_local(body, r[1], depth + 1, stop))
         return ("refplace", targets_str(body, pl), pl["ty"])
     if k == "cast":
         return ("cast", rv["kind"], rv["from"], rv["to"], expr(body, rv["op"], depth + 1, stop))
